@@ -5,12 +5,13 @@ use lazy_static::lazy_static;
 use regex::Regex;
 use serde::de::{self, Deserializer, Visitor};
 use serde_derive::Deserialize;
-use validator::Validate;
+use validator::{Validate, ValidationError};
 
 use crate::core::GenericResult;
 
 #[derive(Deserialize, Validate)]
 #[serde(deny_unknown_fields)]
+#[validate(schema(function = "validate_provider"))]
 pub struct UploadConfig {
     pub provider: ProviderConfig,
     #[validate(length(min = 1))]
@@ -94,6 +95,21 @@ pub enum ProviderConfig {
         client_secret: String,
         refresh_token: String,
     },
+}
+
+fn validate_provider(config: &UploadConfig) -> Result<(), ValidationError> {
+    let (client_id, client_secret, refresh_token) = match &config.provider {
+        ProviderConfig::Dropbox {client_id, client_secret, refresh_token} |
+        ProviderConfig::GoogleDrive {client_id, client_secret, refresh_token} |
+        ProviderConfig::YandexDisk {client_id, client_secret, refresh_token} =>
+            (client_id, client_secret, refresh_token),
+    };
+
+    if client_id.is_empty() || client_secret.is_empty() || refresh_token.is_empty() {
+        return Err(ValidationError::new("empty provider credentials"));
+    }
+
+    Ok(())
 }
 
 fn deserialize_duration<'de, D>(deserializer: D) -> Result<Option<Duration>, D::Error>
